@@ -22,7 +22,7 @@ import (
 	"github.com/FollowTheProcess/spok/token"
 )
 
-var alphabet = []string{"a", "task", "_", "é", " ", "\t", "\n", "\r", "#", "(", ")", "{", "}", "\"", ",", ":=", "->", "{{", "}}", ".", "1", "\xff", "\u0085", "$", "-", ":"}
+var alphabet = []string{"a", "task", "_", "é", " ", "\t", "\n", "\r", "#", "(", ")", "{", "}", "\"", ",", ":=", "->", "{{", "}}", ".", "1", "\xff", "\u0085", "$", "-", ":", "\\"}
 
 var prefixes = []string{"", "task a() {\n", "task a(", "task a() -> ", "task a() -> (", "A := ", "A := join(", "# ", "task a() { b", "task ", "A := \"", "task a(\"x\", ", "task a() {\n b\n", "# c\n", "A := \"x\" ", "task a() -> \"x\" ", "A := b\n", "task a() { b }\n", "A", "task a() -> (\"x\", "}
 
